@@ -8,9 +8,9 @@ from sim import c15, core
 from sim.driver import Report, seeds_for
 
 PROP = "C15"
-TIERS = {"quick": {"cases": 160000, "budget": 50.0, "sweep": False}, "thorough": {"cases": 3000000, "budget": 600.0, "sweep": True}}
+TIERS = {"quick": {"cases": 110000, "budget": 50.0, "sweep": False}, "thorough": {"cases": 3000000, "budget": 600.0, "sweep": True}}
 BATCH = 400
-IDLE = 25.0
+IDLE = 15.0
 
 
 def _batch_task(cases):
@@ -80,8 +80,17 @@ def run_solo(case, timeout=60.0):
     return out, status, None
 
 
+def same_sig(a, b):
+    """Time verdicts about the same class are the same violation whichever symptom (step budget, CPU time,
+    stall) and decoder showed it."""
+    a, b = tuple(a), tuple(b)
+    if a and b and a[0] == b[0] == "time":
+        return a[:2] == b[:2]
+    return a == b
+
+
 def has_sig(summary, sig):
-    return summary is not None and any(tuple(v["sig"]) == tuple(sig) for v in summary["viol"])
+    return summary is not None and any(same_sig(v["sig"], sig) for v in summary["viol"])
 
 
 def minimize(case, sig):
@@ -143,6 +152,40 @@ def sweep_cases():
     return cases
 
 
+def value_sweep_cases(part=0, parts=1):
+    """Every value-bearing place of every document x every junk value of its lexical family (plus a dozen others):
+    the enumerated counterpart of the sampled value corruption. `part` of `parts` selects a slice."""
+    import zlib
+
+    cases = []
+    n = 0
+    for name in sorted(c15.Store.xml):
+        values = c15.xml_values(c15.Store.xml[name][0])
+        for i, cur in enumerate(values):
+            for j in c15.sweep_junk(cur, zlib.crc32(f"{name}:{i}".encode())):
+                n += 1
+                if n % parts != part:
+                    continue
+                dec = ("xml-lxml", "xml-native", "xml-src-native", "xml-native", "xml-lxml", "xml-src-lxml")[n // parts % 6]
+                cfg = ("default", "default", "strictconv", "default", "lenient")[n // parts % 5]
+                cases.append({"seed": -2, "decoder": dec, "doc": name, "faults": [{"k": "value_set", "idx": i, "idx2": 0, "val": j}], "chunks": None, "cfg": cfg})
+    for name in sorted(c15.Store.json):
+        try:
+            doc = json.loads(c15.Store.json[name][0])
+        except Exception:
+            continue
+        leaves = c15.json_value_leaves(doc)
+        for i, path in enumerate(leaves):
+            for j in c15.sweep_junk(str(c15._get(doc, path)), zlib.crc32(f"{name}:{i}".encode())):
+                n += 1
+                if n % parts != part:
+                    continue
+                dec = ("json", "dict")[n // parts % 2]
+                cfg = ("default", "default", "strictconv", "lenient")[n // parts % 4]
+                cases.append({"seed": -2, "decoder": dec, "doc": name, "faults": [{"k": "value_set", "idx": i, "idx2": 0, "val": j}], "chunks": None, "cfg": cfg})
+    return cases
+
+
 def explore(cases, deadline, report, agg, first_by_sig, suspects):
     batches = [cases[i : i + BATCH] for i in range(0, len(cases), BATCH)]
 
@@ -180,7 +223,10 @@ def check(args):
     first_by_sig = {}
     suspects = []
     seeds = seeds_for(args.seed, ncases)
-    cases = [c15.gen_case(s) for s in seeds]
+    # the quick tier runs one half of the value sweep first (which half follows the seed), the thorough tier all of it
+    parts = 1 if tier["sweep"] else 2
+    vs = value_sweep_cases(args.seed % parts, parts)
+    cases = vs + [c15.gen_case(s) for s in seeds]
     t_gen = time.time() - t0 - t_setup
     t1 = time.time()
     explore(cases, time.monotonic() + budget, report, agg, first_by_sig, suspects)
@@ -199,15 +245,21 @@ def check(args):
         status, out = solo.get(i, ("missing", None))
         err = None if status == "ok" else out
         out = out if status == "ok" else None
+        for v in (out or {}).get("viol", []):
+            # it did finish alone, with a verdict of its own (usually the step budget)
+            first_by_sig.setdefault(tuple(v["sig"]), v)
+            agg["sigs"][tuple(v["sig"])] += 1
         if status == "timeout":
-            sig = ("hang", case["decoder"])
+            store = c15.Store.xml if case["decoder"].startswith("xml") else c15.Store.json
+            sig = ("time", "noclass" if case.get("noclass") else str(store.get(case["doc"], (None, None))[1]), case["decoder"], "hang")
             first_by_sig.setdefault(sig, {"case": case, "out": {"outcome": "hang", "detail": "no result within %ds running alone" % (10 * c15_idle())}, "sig": list(sig)})
             agg["sigs"][sig] += 1
         elif out is None:
             report.harness_errors.append(f"stalled case could not be re-run: {status} {err}")
     # ---- triage
     for sig, v in sorted(first_by_sig.items())[:12]:
-        if sig[0] == "hang":
+        if sig[-1] == "hang" or (sig[0] == "time" and v["out"].get("cpu", 0) > 5):
+            # established by the run itself (a stalled case was already re-run alone); shrinking would re-run it many times
             path = core.write_replay(PROP, f"hang-{core.digest(v['case'])}", {"property": PROP, "case": v["case"], "sig": list(sig), "violation": v["out"]})
             report.add(sig, path, summarize(v))
             continue
@@ -220,7 +272,7 @@ def check(args):
             if not has_sig(a, sig):
                 report.harness_errors.append(f"violation {sig} did not reproduce alone in a pristine process: {json.dumps(v)[:500]}")
                 continue
-        vv = next(x for x in a["viol"] if tuple(x["sig"]) == tuple(sig))
+        vv = next(x for x in a["viol"] if same_sig(x["sig"], sig))
         path = core.write_replay(PROP, f"{small.get('seed', 0)}-{core.digest([small, list(sig)])}-min", {"property": PROP, "case": small, "sig": list(sig), "violation": vv["out"]})
         report.add(sig, path, summarize(vv) + f" [{trials} shrink trials]")
     for sig in sorted(first_by_sig)[12:]:
